@@ -478,6 +478,15 @@ func c08PipelineGroup(t *testing.T, rep *kit.Report, lc *localChain, fix []keyge
 					attemptExcluded = append(attemptExcluded, group.MemberIndex(i))
 				}
 			}
+			// what signingExecutor.sign derives from the stored wallet, against the specification's DeriveParameters
+			pr := c.Get("proto")
+			if G != pr.Get("size").Int() || w.groupDishonestThreshold(gp.HonestThreshold) != pr.Get("dishonest").Int() ||
+				!c08Eq(c08Ints(attemptExcluded), pr.Get("excl").Ints()) {
+				rep.Diverge(ckey+":parameters", "protocol parameters derived from the stored wallet differ from the specification", c.X, pr.X,
+					map[string]interface{}{"size": G, "dishonest": w.groupDishonestThreshold(gp.HonestThreshold), "excl": c08Ints(attemptExcluded)})
+				ok = false
+				break
+			}
 			sp, err := signing.VerifC08SigningParties(s.signingGroupMemberIndex, s.privateKeyShare, G,
 				w.groupDishonestThreshold(gp.HonestThreshold), attemptExcluded, big.NewInt(100))
 			rep.Count("signing_members", 1)
